@@ -70,6 +70,7 @@ status_t ReaderWriterMutex :: LockReadOnlyAux(uint64 optTimeoutTimestamp) const
 
             return ret;
          }
+         MUSCLE_VERIF_EVENT("RecheckR", this, 0, _executingThreads.GetNumItems(), _waitingReaderThreads.GetNumItems(), _waitingWriterThreads.GetNumItems());
       }
    }
    else
@@ -197,6 +198,7 @@ status_t ReaderWriterMutex :: LockReadWriteAux(uint64 optTimeoutTimestamp) const
             if (ret.IsError()) MaybeNotifySomeWaitingThreads();  // avoid a potential stall on OOM
             return ret;
          }
+         MUSCLE_VERIF_EVENT("RecheckW", this, 0, _executingThreads.GetNumItems(), _waitingReaderThreads.GetNumItems(), _waitingWriterThreads.GetNumItems());
       }
    }
 #endif
